@@ -1,6 +1,7 @@
 package gen
 
 import (
+	"go/token"
 	"sort"
 
 	"github.com/dave/jennifer/jen"
@@ -93,6 +94,26 @@ func (g *Generator) generateMethodFunction(obj *tlparser.Method) jen.Code {
 	return method
 }
 
+// identifiers the body of a generated method uses itself: a positional argument must not shadow them
+var methodBodyIdentifiers = map[string]bool{
+	"c": true, "err": true, "errors": true, "ok": true, "reflect": true, "resp": true, "responseData": true,
+	"nil": true, "panic": true, "false": true,
+	// types the body may assert the response to
+	"bool": true, "byte": true, "int32": true, "int64": true, "float64": true, "string": true,
+}
+
+// argumentName is the name of a positional argument of a generated method: lower camel case, with a
+// trailing underscore when that would be a Go keyword or would shadow something the method body needs
+// (e.g. the parameter `errors` of users.setSecureValueErrors and the package errors).
+func argumentName(paramName string) string {
+	name := goify(paramName, false)
+	if token.IsKeyword(name) || methodBodyIdentifiers[name] {
+		name += "_"
+	}
+
+	return name
+}
+
 func (g *Generator) generateArgumentsForMethod(obj *tlparser.Method) []jen.Code {
 	if len(obj.Parameters) == 0 {
 		return []jen.Code{}
@@ -104,7 +125,7 @@ func (g *Generator) generateArgumentsForMethod(obj *tlparser.Method) []jen.Code 
 	items := make([]jen.Code, 0)
 
 	for i, p := range obj.Parameters {
-		item := jen.Id(goify(p.Name, false))
+		item := jen.Id(argumentName(p.Name))
 		if i == len(obj.Parameters)-1 || p.Type != obj.Parameters[i+1].Type || p.IsVector != obj.Parameters[i+1].IsVector {
 			if p.Type == "bitflags" {
 				continue // ну а зачем?
@@ -133,7 +154,7 @@ func (g *Generator) generateMethodArgumentForMakingRequest(obj *tlparser.Method)
 			continue // ну а зачем?
 		}
 
-		dict[jen.Id(goify(p.Name, true))] = jen.Id(goify(p.Name, false))
+		dict[jen.Id(goify(p.Name, true))] = jen.Id(argumentName(p.Name))
 	}
 
 	return jen.Op("&").Id(goify(obj.Name, true) + "Params").Values(dict)
